@@ -10,6 +10,7 @@
 #include <cocls/queue.h>
 
 #include <deque>
+#include <functional>
 #include <memory>
 #include <sstream>
 
@@ -53,6 +54,8 @@ struct Ref {
     int pc[MAXA] = {};      // next step index
     int state[MAXA] = {};   // 0 not started, 1 running/ready, 2 blocked, 3 finished
     bool failed = false;
+    bool one_at_a_time = false;  // entry 'resume-by-handle': normal code resumes the readied coroutines one by one through
+                                 // coro_queue::resume(h) (what a thread-pool worker does); each call is an outermost activation of its own
     std::string trace;
 
     void fail(const char *sig, const std::string &msg) {
@@ -75,7 +78,7 @@ struct Ref {
             allowed.clear();
             return;
         }
-        if (!D.empty()) {
+        if (!D.empty() && !one_at_a_time) {
             allowed = D;
             return;
         }
@@ -317,7 +320,7 @@ struct Ref {
         trace += "| ";
         if (failed) return;
         if (queue_active) fail("sched/queue-left-active", "coro_queue::is_active() after the outermost activation returned");
-        bool pending = !D.empty();
+        bool pending = !D.empty() && !one_at_a_time;
         for (auto &b : Q) pending |= !b.empty();
         if (running >= 0 && !expect_continue) pending = true;
         if (pending || running >= 0) {
@@ -405,7 +408,8 @@ static cocls::async<void> entry_wrapper(Env &e) {
 
 static std::string describe(int entry, const std::vector<Script> &scripts) {
     std::ostringstream o;
-    o << "entry=" << (entry ? "coroutine" : "normal") << ";";
+    static const char *entry_names[] = {"normal", "coroutine", "unwinding", "resume-by-handle"};
+    o << "entry=" << entry_names[entry] << ";";
     for (size_t a = 0; a < scripts.size(); a++) {
         o << "c" << a << "=";
         for (size_t i = 0; i < scripts[a].size(); i++) o << (i ? "," : "") << scripts[a][i].k << ":" << scripts[a][i].arg;
@@ -435,18 +439,46 @@ static void run_program(seqx::Runner &R, int entry, const std::vector<Script> &s
         Ref &r = e->ref;
         // entry
         r.state[0] = 1;
-        if (entry == 0) {
+        r.one_at_a_time = entry == 3;
+        // what normal code does with a suspend point it has just obtained
+        auto release_from_normal_code = [&](auto &&make_sp) {
+            if (entry == 2) {
+                // in a destructor that runs while an exception propagates through ordinary code
+                struct G {
+                    std::function<void()> f;
+                    ~G() { f(); }
+                };
+                try {
+                    G g{[&] { make_sp(); }};
+                    throw 0;
+                } catch (int) {
+                }
+                r.on_top_return(cocls::coro_queue::is_active());
+            } else if (entry == 3) {
+                cocls::suspend_point<void> sp = make_sp();
+                while (!sp.empty() && !r.failed) {
+                    std::coroutine_handle<> h = sp.pop();
+                    r.allowed = r.D;
+                    cocls::coro_queue::resume(h);
+                    r.on_top_return(cocls::coro_queue::is_active());
+                }
+            } else {
+                make_sp();
+                r.on_top_return(cocls::coro_queue::is_active());
+            }
+        };
+        if (entry == 0 || entry >= 2) {
             r.D = {0};
             r.allowed = r.D;
-            actor(*e, 0).detach();
+            release_from_normal_code([&] { return cocls::suspend_point<void>(actor(*e, 0).detach()); });
         } else {
             // the wrapper is not modelled as an actor: it readies actor 0 with a discarded suspend point and finishes,
             // so actor 0 runs from the queue
             r.Q.push_back({0});
             r.allowed = {0};
             entry_wrapper(*e).detach();
+            r.on_top_return(cocls::coro_queue::is_active());
         }
-        r.on_top_return(cocls::coro_queue::is_active());
         // epilogue from normal code: make everything still pending complete
         for (int round = 0; round < 20 && e->finished < nstarted_expected && !r.failed; round++) {
             bool acted = false;
@@ -456,8 +488,7 @@ static void run_program(seqx::Runner &R, int entry, const std::vector<Script> &s
                     r.D = r.take_waiters(k);
                     r.allowed = r.D;
                     r.trace += "<resolve> ";
-                    e->prom[k](9);
-                    r.on_top_return(cocls::coro_queue::is_active());
+                    release_from_normal_code([&] { return cocls::suspend_point<void>(e->prom[k](9)); });
                     acted = true;
                 }
             if (!acted && !r.q_poppers.empty()) {
@@ -465,8 +496,7 @@ static void run_program(seqx::Runner &R, int entry, const std::vector<Script> &s
                 r.q_poppers.pop_front();
                 r.allowed = r.D;
                 r.trace += "<push> ";
-                e->q.push(1);
-                r.on_top_return(cocls::coro_queue::is_active());
+                release_from_normal_code([&] { return cocls::suspend_point<void>(e->q.push(1)); });
                 acted = true;
             }
             if (!acted) break;
@@ -495,13 +525,14 @@ struct Gen {
     int nfut;
     std::vector<Script> scripts;
     std::vector<bool> detached;
+    int nentries = 2;  // 4: also from a destructor during stack unwinding, and resumed handle by handle with coro_queue::resume
     void gen_actor(int a) {
         if (R.stop()) return;
         if (a == N) {
             // every actor beyond 0 must be started by somebody, otherwise the program is an (N-1)-actor program
             for (int j = 1; j < N; j++)
                 if (!detached[(size_t)j]) return;
-            for (int entry = 0; entry < 2; entry++)
+            for (int entry = 0; entry < nentries; entry++)
                 if (R.next_case()) run_program(R, entry, scripts);
             return;
         }
@@ -542,8 +573,9 @@ struct Gen {
     }
 };
 
-static void enumerate(seqx::Runner &R, int N, int maxlen, int nfut, std::vector<int> alphabet) {
+static void enumerate(seqx::Runner &R, int N, int maxlen, int nfut, std::vector<int> alphabet, int nentries = 2) {
     Gen g{R, N, maxlen, std::move(alphabet), nfut, std::vector<Script>((size_t)N), std::vector<bool>((size_t)N, false)};
+    g.nentries = nentries;
     g.gen_actor(0);
 }
 
@@ -555,7 +587,7 @@ static void wide_family(seqx::Runner &R) {
     for (int n = 1; n <= 6; n++)
         for (int res : {RESD, RESA})
             for (int tail = 0; tail < 3; tail++)
-                for (int entry = 0; entry < 2; entry++) {
+                for (int entry = 0; entry < 4; entry++) {
                     std::vector<Script> scripts((size_t)n + 1);
                     for (int j = 1; j <= n; j++) {
                         scripts[0].push_back({j % 2 ? DETD : DETA, j});
@@ -574,11 +606,11 @@ void seqx_run(seqx::Runner &R, const std::string &tier) {
     std::vector<int> full;
     for (int k = 0; k < NSK; k++) full.push_back(k);
     if (tier == "quick") {
-        enumerate(R, 2, 3, 1, {PAUSE, RESD, RESA, AW, LOCK, RELD, RELA, QPUSHD, QPUSHA, QPOP, DETD, DETA, STARTF, COAWAIT});
+        enumerate(R, 2, 3, 1, {PAUSE, RESD, RESA, AW, LOCK, RELD, RELA, QPUSHD, QPUSHA, QPOP, DETD, DETA, STARTF, COAWAIT}, 4);
         enumerate(R, 3, 2, 2, {PAUSE, RESD, RESA, AW, LOCK, RELD, RELA, QPUSHD, QPOP, DETD, DETA, STARTF, COAWAIT, RES2D});
         enumerate(R, 3, 3, 1, {PAUSE, AW, DETD, CSPD, CSPA});
     } else {
-        enumerate(R, 2, 3, 2, full);
+        enumerate(R, 2, 3, 2, full, 4);
         enumerate(R, 2, 4, 1, {PAUSE, RESD, RESA, AW, LOCK, RELD, RELA, DETD, DETA, STARTF, COAWAIT});
         enumerate(R, 3, 2, 2, full);
         enumerate(R, 3, 3, 1, {PAUSE, RESD, AW, DETD, STARTF, COAWAIT});
@@ -588,7 +620,7 @@ void seqx_run(seqx::Runner &R, const std::string &tier) {
 
 void seqx_replay(seqx::Runner &R, const std::string &c) {
     seq_warmup();
-    int entry = c.find("entry=coroutine") != std::string::npos;
+    int entry = c.find("entry=coroutine") != std::string::npos ? 1 : c.find("entry=unwinding") != std::string::npos ? 2 : c.find("entry=resume-by-handle") != std::string::npos ? 3 : 0;
     std::vector<Script> scripts;
     for (int a = 0; a < MAXA; a++) {
         std::string key = "c" + std::to_string(a) + "=";
